@@ -285,12 +285,27 @@ func (g *vdrGen) body(scope []vgSrc, depth int, nCalls int, used map[string]bool
 			}
 			d.WriteString("}\n\n")
 			g.decls.WriteString(d.String())
+			// the sub-pipeline may be called with a `disabled` modifier bound to a
+			// run-time flag: what it hands out reaches its consumers behind that boundary
+			flag := ""
+			if g.rng.Intn(3) == 0 {
+				flag = g.name("FLAG")
+				fx := intSrc()
+				used[fx.Expr] = true
+				fmt.Fprintf(&g.decls, "stage %s(\n    in  int i0,\n    out bool o0,\n    src comp \"x\",\n)\n\n", flag)
+				fmt.Fprintf(&b, "    call %s(\n        i0 = %s,\n    )\n", flag, fx.Expr)
+				g.Stats["disabled-sub-pipeline"]++
+			}
 			fmt.Fprintf(&b, "    call %s(\n", pname)
 			for i, in := range ins {
 				used[in.Expr] = true
 				fmt.Fprintf(&b, "        p%d = %s,\n", i, in.Expr)
 			}
-			b.WriteString("    )\n")
+			if flag != "" {
+				fmt.Fprintf(&b, "    ) using (\n        disabled = %s.o0,\n    )\n", flag)
+			} else {
+				b.WriteString("    )\n")
+			}
 			for i, o := range outs {
 				s := vgSrc{fmt.Sprintf("%s.q%d", pname, i), o.Ty, o.File}
 				produced, all = append(produced, s), append(all, s)
